@@ -159,7 +159,7 @@ impl Node {
             let o = |x: Option<String>| match x { Some(b) => escw(&b), None => "-".to_string() };
             out.push(format!("D sess {} auth={} db={} user={} member={}", sid, if s.client.is_admin_auth() { 1 } else { 0 }, o(s.client.selected_db_name()), o(s.client.selected_db_user_name()), mem));
         }
-        let q: Vec<String> = self.dbs.to_snapshot.read().unwrap().iter().map(|(d, r)| format!("{}:{}", escw(d), r)).collect();
+        let q: Vec<String> = match self.dbs.to_snapshot.read() { Ok(g) => g, Err(p) => { out.push("D poisoned snapshot-queue".to_string()); p.into_inner() } }.iter().map(|(d, r)| format!("{}:{}", escw(d), r)).collect();
         out.push(format!("D snapq {}", q.join(",")));
         {
             let p = self.dbs.pending_opps.read().unwrap();
